@@ -262,6 +262,7 @@ func r4emSearchLoops(c *Ctx, stacks []*r4emStack) []*r4emSearch {
 }
 
 func ruleR4ScopeSearch(c *Ctx) []Obligation {
+	r2LoopCtx = c
 	stacks := r4emScopeStacks(c)
 	if len(stacks) == 0 {
 		return []Obligation{{Key: "scope stacks", Status: Undecided, Detail: "no slice field of name tables with push/pop primitives found in the pipeline: re-anchor the rule"}}
